@@ -17,7 +17,7 @@ PROPERTY = "C07"
 LEVEL = "model_checking"
 RULE = ("executions of Algorithm.evaluate(batch) with max_processes=2 under the controlled scheduler: 2 tasks without store: all "
         "interleavings; 2 tasks with a thread-safe SqliteDataStore: <=3 (quick) / <=4 (thorough) deviations (pre-emptions + busy-timeout "
-        "expiries); 3 tasks on 2 workers: <=3 without store, <=2 / <=3 with store; a constrained problem (designs of differing feasibility, scheduling points inside the constraint function); thorough adds line-level "
+        "expiries); 3 tasks on 2 workers: <=3 without store, <=2 / <=3 with store; a constrained problem (designs of differing feasibility, scheduling points inside the constraint function); an external lock holder (every upsert may find the database locked past the busy timeout, up to 6 times, every pattern); thorough adds line-level "
         "points with <=2 pre-emptions and transient objective failures in workers. states = distinct (per-worker position labels) vectors visited; transitions = scheduling steps executed; "
         "distinct_nontrivial = distinct complete schedules (traces) with at least one context switch between unfinished workers.")
 ASSUMPTIONS = ["joblib's threading backend honours the contract of the model executor (lazy dispatch, each task once, shared memory, "
@@ -55,7 +55,8 @@ def run_batch(ctx, ntasks, store, fine, faults, real_joblib=False):
     from .c_support import make_problem, reset_ids
     reset_ids()
     constrained = faults == "constrained"
-    if constrained:
+    extlock = (6, 0) if faults == "extlock" else None
+    if constrained or extlock:
         faults = False
     key = ("p", constrained)
     env = Env.cache.get(key)
@@ -121,7 +122,7 @@ def run_batch(ctx, ntasks, store, fine, faults, real_joblib=False):
         except BaseException as e:  # noqa
             exc = e
     else:
-        with scheduled(ctx, fine=fine, db=store) as holder:
+        with scheduled(ctx, fine=fine, db=store, extlock=extlock) as holder:
             env["holder"] = holder
             try:
                 alg.evaluate(batch)
@@ -149,7 +150,7 @@ def judge(problem, batch, exc, rows, info, store, faults, desc):
     from artap.individual import Individual
     out = []
     constrained = faults == "constrained"
-    if constrained:
+    if constrained or faults == "extlock":
         faults = False
 
     def bad(key, msg):
@@ -303,13 +304,14 @@ def run(tier, seed):
                   ("explore", 2, False, True, False, 2), ("explore", 2, True, True, False, 2),
                   ("explore", 2, True, False, True, 3), ("explore", 4, True, False, False, 2),
                   ("explore", 2, False, False, "constrained", None), ("explore", 3, True, False, "constrained", 2),
-                  ("explore", 2, False, True, "constrained", 2),
+                  ("explore", 2, False, True, "constrained", 2), ("explore", 2, True, False, "extlock", 1), ("explore", 3, True, False, "extlock", 0),
                   ("free", 2, True, 50), ("free", 3, True, 50), ("free", 3, False, 50)]
     else:
         shards = [("explore", 2, False, False, False, None), ("explore", 2, True, False, False, 3),
                   ("explore", 3, False, False, False, 3), ("explore", 3, True, False, False, 2),
                   ("explore", 2, True, False, True, 1), ("explore", 2, False, True, False, 1),
                   ("explore", 2, False, False, "constrained", 3), ("explore", 3, True, False, "constrained", 1),
+                  ("explore", 2, True, False, "extlock", 0),
                   ("free", 2, True, 10), ("free", 3, False, 10)]
     split = []
     for sh in shards:
